@@ -44,7 +44,7 @@ structure Hdr where
 
 /-- status line and header fields -/
 structure Block where
-  /-- the `x` of `HTTP/1.x`, one digit -/
+  /-- the `x` of `HTTP/1.x` -/
   minor : Nat
   status : Nat
   /-- what follows the status code on the status line (empty, or " OK", …) -/
@@ -74,7 +74,7 @@ def Framing.body : Framing → Bytes
 def http1dot : Bytes := [72, 84, 84, 80, 47, 49, 46]
 
 def Block.statusLine (b : Block) : Bytes :=
-  http1dot ++ [digitChar b.minor, SP] ++ dec b.status ++ b.reason
+  http1dot ++ dec b.minor ++ [SP] ++ dec b.status ++ b.reason
 
 def Hdr.line (h : Hdr) : Bytes := h.name ++ [COLON] ++ h.pre ++ h.value ++ h.post
 
@@ -103,9 +103,12 @@ def expectedBody (r : Resp) (ishead : Bool) : Bytes :=
 /-- the header list the caller must receive -/
 def expectedHeaders (r : Resp) : List (Bytes × Bytes) := r.final.headers.map (fun h => (h.name, h.value))
 
-def sTransferEncoding : Bytes := "Transfer-Encoding".toUTF8.toList
-def sContentLength : Bytes := "Content-Length".toUTF8.toList
-def sChunked : Bytes := "chunked".toUTF8.toList
+/-- "Transfer-Encoding" -/
+def sTransferEncoding : Bytes := [84, 114, 97, 110, 115, 102, 101, 114, 45, 69, 110, 99, 111, 100, 105, 110, 103]
+/-- "Content-Length" -/
+def sContentLength : Bytes := [67, 111, 110, 116, 101, 110, 116, 45, 76, 101, 110, 103, 116, 104]
+/-- "chunked" -/
+def sChunked : Bytes := [99, 104, 117, 110, 107, 101, 100]
 
 def Hdr.WF (h : Hdr) : Prop :=
   h.name.all (fun c => lineSafe c && c != COLON) = true ∧
@@ -115,7 +118,7 @@ def Hdr.WF (h : Hdr) : Prop :=
   (∀ c, h.value.head? = some c → isOWS c = false) ∧ (∀ c, h.value.getLast? = some c → isOWS c = false)
 
 def Block.WF (b : Block) (lo hi : Nat) : Prop :=
-  b.minor ≤ 9 ∧ lo ≤ b.status ∧ b.status ≤ hi ∧
+  b.minor ≤ 2147483647 ∧ lo ≤ b.status ∧ b.status ≤ hi ∧
   b.reason.all lineSafe = true ∧ (∀ c, b.reason.head? = some c → isDigit c = false) ∧
   ∀ h ∈ b.headers, h.WF
 
